@@ -348,7 +348,7 @@ Lemma R_fragset_ab c u : CfgRT c -> (33 <=? ab (fragset c u)) = true.
 Proof. intros R. unfold fragset. destruct (isSpecialScheme c (u_scheme u)); [apply (R_sfrag c R)|apply (R_frag c R)]. Qed.
 
 (* the record the parser returns for the serialization [s] of [u]: the components of [u], the input [s],
-   no validation errors, no search-parameter object *)
+   no validation errors, no searchParams object *)
 Definition rt_url (u : url) (s : str) : url :=
   {| u_input := s; u_scheme := u_scheme u; u_username := u_username u; u_password := u_password u;
      u_host := u_host u; u_port := u_port u; u_decodedPort := u_decodedPort u; u_path := u_path u;
